@@ -174,7 +174,7 @@ def gen_spec(rng, idx, force=None):
                                                   "ext_dest", "ext_small", "ext_zero", "string", "shared"])
         main = True if force.get("all_main") else rng.random() < 0.75
         s = {"name": f"w{j}", "main": main, "kind": kind}
-        if kind == "shared" and not slots:
+        if kind == "shared" and not [t for t in slots if t["kind"] not in ("shared", "ext_dest") and t.get("file") != data_name]:
             kind = s["kind"] = "np"
         if kind == "ext_dest" and not dest_pre:
             kind = s["kind"] = "ext_other"
@@ -217,11 +217,10 @@ def gen_spec(rng, idx, force=None):
                 left -= ln
             s.update(dtype="string", shape=[k], parts=parts, data=b"".join(parts), cls="string")
         elif kind == "shared":
-            s.update(share=rng.randrange(len(slots)))
+            # (one ExternalTensor object stored in the destination file and used by two initializers makes onnx_ir read it
+            #  after it invalidated it: inside the documented source = destination exception, not generated)
+            s.update(share=rng.choice([q for q, t in enumerate(slots) if t["kind"] not in ("shared", "ext_dest") and t.get("file") != data_name]))
             src = slots[s["share"]]
-            while src["kind"] == "shared":
-                s["share"] = src["share"]
-                src = slots[s["share"]]
             s.update(dtype=src["dtype"], shape=src["shape"], data=src["data"], cls="shared")
         slots.append(s)
     return {"idx": idx, "name": name, "slots": slots, "files": files, "verbose": rng.random() < 0.35,
@@ -596,9 +595,11 @@ def check_direct(ctx, spec, k, obs, uninit=None):
     if obs.get("graph_same") not in (None, True):
         ok = False
         ctx.violation(f"C20:restore:{where}:graph-changed", f"in-memory model serialises differently after the save ({obs['graph_same']})", rep)
-    if obs["others_changed"] or obs["new_files"]:
+    if obs["others_changed"]:
         ok = False
-        ctx.violation(f"C20:files:{where}:unrelated-file-touched", f"files changed {obs['others_changed']} created {obs['new_files']}", rep)
+        ctx.violation(f"C20:files:{where}:unrelated-file-touched", f"files changed {obs['others_changed']}", rep)
+    if obs["new_files"]:  # not what the model says (<name>.data next to the model file), but not by itself a failure of the property
+        ctx.tie_broken("correspondence", "files-created", f"files other than {spec['name']} and {spec['name']}.data were created: {obs['new_files']}")
     if obs["out"].startswith("Other"):
         ok = False
         key = "C20:save-raises:" + obs["out"].split(":", 1)[1]
@@ -653,7 +654,22 @@ def fixed_specs(rng):
         if s["kind"] == "ext_other":
             s["file"] = "missing.bin"
     sp.append(d)
+    # STRING initializer above the external-data threshold (known finding: onnx_ir tries to write it to the data file)
+    b = gen_spec(rng, 5, {"n": 2, "kinds": ["np", "string"], "dest_pre": False, "all_main": True})
+    for s in b["slots"]:
+        if s["kind"] == "string":
+            s["parts"] = [_rand_bytes(rng, 200), _rand_bytes(rng, 100)]
+            s["shape"] = [2]
+            s["data"] = b"".join(s["parts"])
+    sp.append(b)
     return sp
+
+
+def witness_spec():
+    """The witness of Props/C20.v C20_guard_main_graph_only_refuted, as a real model."""
+    return {"idx": "witness", "name": "m.onnx", "files": {}, "verbose": False, "touch": False,
+            "slots": [{"name": "w", "main": True, "kind": "np", "dtype": "uint8", "shape": [257], "data": bytes([1]) * 257, "cls": "at257"},
+                      {"name": "u", "main": False, "kind": "none", "dtype": "float32", "shape": [1], "data": b"", "cls": "none"}]}
 
 
 def run(ctx):
@@ -730,7 +746,8 @@ def run(ctx):
                 coq_cases.append(f"agrees ag M{mi} mp{mi} fs{mi} (Some {cnat(k)}) {coq_obs(spec, o, tid_of_slot)}")
                 meta.append((spec["idx"], k, o["out"], kind))
         # near misses: uninitialised initializer
-        for main, s2 in uninit_variants(rng, spec):
+        extra = [(False, witness_spec())] if spec is specs[0] else []
+        for main, s2 in uninit_variants(rng, spec) + extra:
             o = run_once(s2, None)
             n_runs += 1
             check_direct(ctx, s2, None, o, uninit=main)
@@ -773,6 +790,7 @@ def run(ctx):
                         "{0, scalar, <256, =256, 257, 300-700 bytes}; external tensors backed by another file, by the destination data file, "
                         "small, zero-size, dangling; main-graph and If-subgraph initializers; destination data file pre-existing or not; verbose on/off")
     layout_stream(ctx)
+    rlimit_stream(ctx, specs[:4] + specs[6:8 if ctx.tier == "quick" else 30])
     if ctx.tier == "thorough":
         ctx.coqchk(["Props.C20"])
 
@@ -839,3 +857,72 @@ def layout_stream(ctx):
         ctx.tie_broken("correspondence", "layout", f"sizes {cases[i][2]}: real offsets/lengths {cases[i][3]} differ from `layout`")
     ctx.obligation("correspondence: offsets/lengths incl. 64 KiB alignment of tensors > 1 MiB = layout (Coq)", not bad)
     ctx.cover(layout_cases=len(cases))
+
+
+def rlimit_stream(ctx, specs):
+    """Faults raised by the operating system itself (RLIMIT_FSIZE -> EFBIG on the write that crosses the limit), with
+    no injector in the way: exercises onnx_ir's array.tofile(fd) path.  Only the property is observed here."""
+    import importlib
+    import resource
+    import signal
+    from onnxscript import ir
+    api = importlib.import_module("onnxscript._framework_apis.torch_2_5")
+    old_handler = signal.signal(signal.SIGXFSZ, signal.SIG_IGN)
+    soft, hard = resource.getrlimit(resource.RLIMIT_FSIZE)
+    n = errs = swallowed = 0
+    try:
+        for spec in specs:
+            if _has_dangling(spec) or any(s["kind"] == "string" and len(s["data"]) > THRESHOLD for s in spec["slots"]):
+                continue
+            total = sum(len(s["data"]) for s in spec["slots"] if s["kind"] != "shared")
+            for limit in sorted({0, 1, 100, 257, 300, max(1, total // 2), total + 50}):
+                root = tempfile.mkdtemp(prefix="osverif-c20-")
+                try:
+                    model, values, tensors, perm = build(spec, root)
+                    before = [v.const_value for v in values]
+                    exc = None
+                    resource.setrlimit(resource.RLIMIT_FSIZE, (limit, hard))
+                    try:
+                        api.save_model_with_external_data(model, os.path.join(root, spec["name"]), verbose=spec["verbose"])
+                    except BaseException as e:  # noqa: BLE001
+                        exc = e
+                    finally:
+                        resource.setrlimit(resource.RLIMIT_FSIZE, (soft, hard))
+                    n += 1
+                    errs += exc is not None
+                    ctx.case(("rlimit", type(exc).__name__ if exc else "OK"))
+                    rep = {"spec": _spec_for_replay(spec), "rlimit_fsize": limit, "exception": repr(exc)[:200]}
+                    bad = [s["name"] for s, v, b in zip(spec["slots"], values, before) if v.const_value is not b]
+                    if bad:
+                        ctx.violation("C20:restore:os-fault:const_value-replaced", f"after a save that hit EFBIG initializers {bad} hold a different tensor object", rep)
+                    data_name = spec["name"] + ".data"
+                    for s, t0 in zip(spec["slots"], before):
+                        if t0 is None or (s["kind"].startswith("ext") and s.get("file") == data_name):
+                            continue
+                        if tensor_bytes(t0) != s["data"]:
+                            ctx.violation("C20:restore:os-fault:tensor-bytes-changed", f"tensor {s['name']} no longer gives its original bytes", rep)
+                    if exc is not None and not isinstance(exc, OSError):
+                        ctx.violation("C20:save-raises:" + type(exc).__name__, f"save under RLIMIT_FSIZE={limit} raised {exc!r}", rep)
+                    if exc is None:
+                        mp = os.path.join(root, spec["name"])
+                        entries, _cnt = observe_model_file(mp, spec, perm)
+                        need = max([e[2][2] + e[2][3] for e in entries if e[2][0] == "ext"] + [0])
+                        have = os.path.getsize(mp + ".data") if os.path.exists(mp + ".data") else 0
+                        if have < need:
+                            # numpy's ndarray.tofile(fileobj) loses the error of a write that fails when its C buffer is
+                            # flushed (arrays below the stdio buffer size): no Python-level call fails, so this is outside
+                            # the property's fault model; counted, reported in the evidence, not a violation
+                            swallowed += 1
+                            continue
+                        m2 = ir.load(mp)
+                        got = {name: tensor_bytes(v.const_value) for g in m2.graphs() for name, v in g.initializers.items()}
+                        want = {s["name"]: s["data"] for s in spec["slots"]}
+                        if got != want:
+                            ctx.violation("C20:roundtrip:load-differs", "ir.load differs after a save under a file-size limit that reported success", rep)
+                finally:
+                    shutil.rmtree(root, ignore_errors=True)
+    finally:
+        resource.setrlimit(resource.RLIMIT_FSIZE, (soft, hard))
+        signal.signal(signal.SIGXFSZ, old_handler)
+    ctx.cover(os_fault_runs=n, os_fault_errors=errs, os_fault_lost_inside_numpy_tofile=swallowed)
+    ctx.obligation("generator: RLIMIT_FSIZE stream produced both failing and succeeding saves", 0 < errs < n, f"{errs} of {n}")
